@@ -94,12 +94,18 @@ def render_case(case, uid, macroset=None):
     elif s["trailing"] == "reflikearg":
         msg += " {}"
         args_after += ', "[ref: 5] arg"'
-    mod = (macroset or {}).get(macro, "log")
-    others = sorted(set((macroset or {"x": "other"}).values()) - {mod}) or ["other"]
+    mods = (macroset or {}).get(macro, "log")
+    if isinstance(mods, str):
+        mods = [mods]
+    mod = mods[uid % len(mods)]
+    allmods = set()
+    for mv in (macroset or {"x": "other"}).values():
+        allmods.update([mv] if isinstance(mv, str) else mv)
+    others = sorted(allmods - set(mods)) or ["other"]
     name = {"bare": macro, "qualified": mod + "::" + macro, "crossmod": others[uid % len(others)] + "::" + macro, "unconfigured": "debug", "prefix": macro + "_extra",
             "suffix": "my_" + macro, "othermod": "other::" + macro, "submod": mod + "::sub::" + macro,
             "shortmod": "l::" + macro, "noliteral": macro, "noargs": macro, "linecomment": macro,
-            "blockcomment": macro, "doccomment": macro, "instring": macro, "upper": macro.upper(),
+            "blockcomment": macro, "doccomment": macro, "instring": macro, "starcomment": macro, "bannercomment": macro, "upper": macro.upper(),
             "crateprefixed": "crate::" + mod + "::" + macro}.get(head)
     if name is None:
         raise ToolError("unknown head " + head)
@@ -139,6 +145,12 @@ def render_case(case, uid, macroset=None):
     elif head == "blockcomment":
         body = "    /* " + call + "; */"
         stmt_off = None
+    elif head == "starcomment":
+        body = "    /** " + call + "; **/"
+        stmt_off = None
+    elif head == "bannercomment":
+        body = "    /********\n     * " + call.replace("\n", " ").replace("\r", " ") + ";\n     ********/"
+        stmt_off = None
     elif head == "instring":
         inner = call.replace("\\", "\\\\").replace('"', '\\"').replace("\n", " ").replace("\r", " ")
         body = '    let _s%d = "call %s here";' % (uid, inner)
@@ -166,9 +178,12 @@ def render_case(case, uid, macroset=None):
 class Pack:
     """A generated source file holding many rendered statements."""
 
-    def __init__(self, name, header=True):
+    def __init__(self, name, header=True, bom=False):
         self.name = name
+        self.bom = bom
         self.parts = ["// generated by the verification harness: %s\nuse log::{info, warn, error};\n\npub fn f() {\n    let x = 1; let y = 2;\n" % name] if header else [""]
+        if bom:
+            self.parts[0] = "\ufeff" + self.parts[0]
         self.items = []
         self.nchars = len(self.parts[0])
 
